@@ -164,6 +164,20 @@ def families(tier, rng):
             for cons in ["", "w", "w,", ",", ":,,", "…,", "1\"", "W", ":w,,", "$", "w…_"]:
                 for fl in ("", "W") if tier == "quick" else ("", "W", "o", "O"):
                     out.append((src + body + cons, fl, inp[0]))
+    #    ... and bodies that raise StopIteration for some item (moulding onto an empty list): inside a generator that is an
+    #    error; handed to filter() / map() it reads as the end of the list and the run completes with the interrupted
+    #    lambda's entries left behind (genuine defect in vy_filter, repaired: fix 56ead27)
+    for op in ["λ3ɾ•;F", "λ3ɾ•;M", "'3ɾ•;", "ƛ3ɾ•;", "µ3ɾ•L;", "λ3ɾ•;$F", "λ3ɾ•;$M", "vλ3ɾ•;"]:
+        for cons in ["", ",", "L,", "w,", "(n,)", "∑,", ":,,", "h,"]:
+            for fl in ("", "W"):
+                out.append(("⟨⟨1|2⟩|⟨⟩|⟨3⟩⟩" + op + cons, fl, inp[0]))
+    # I  two lazy stages: a cumulative reduction OF a lazily produced list whose body has side effects -- which source
+    #    item has been produced when which value is written (the scan holds the next source item before it hands out)
+    for src in ["3ƛ…;", "0£⟨1|2|3⟩ƛ:£;", "2ƛ,;", "⟨4|5|6|7⟩ƛ…;", "1ƛ…;", "⟨⟩ƛ…;"]:
+        for sc in ["ɖ+", "ɖλ…+;", "ɖ-", "ɖ$", "ɖλ¥+;"]:
+            for cons in ["", ",", "w,", ":,,", "…,", "$", "w", "¥,"]:
+                for fl in ("", "W") if tier == "quick" else ("", "W", "o"):
+                    out.append((src + sc + cons, fl, inp[0]))
     for st in MOD_STACKS[:4]:
         for o in ["λ_;", "λ2|$-;", "λ3|_$-;", "λ1;"]:
             out.append((st + "≬" + o + "WvN†", "W", inp[1]))
